@@ -20,8 +20,11 @@ def selftest():
         return rc
     sys.path.insert(0, VERIF)
     n = 0
-    for p in sorted(glob.glob(os.path.join(VERIF, "vf", "props", "c[0-9][0-9].py"))):
-        m = importlib.import_module("vf.props." + os.path.basename(p)[:-3])
+    with open(os.path.join(VERIF, "claimed.txt")) as f:
+        claimed = [l.strip() for l in f if l.strip() and not l.startswith("#")]
+    for pid in claimed:
+        p = os.path.join(VERIF, "vf", "props", pid.lower() + ".py")
+        m = importlib.import_module("vf.props." + pid.lower())
         for attr in ("PROP", "RULE", "BUDGET", "FLOORS", "cases", "run_case"):
             assert hasattr(m, attr), (p, attr)
         n += 1
